@@ -2,15 +2,15 @@
    Model/Hash.v (hand model over abstract inner clients and a scripted clock) is run against the real
    HashClient on every check; Spec/Failover.v states the probing bounds as an executable check on the
    contact log, extracted as the search oracle.
-     c13_windows        for EVERY history of single-key calls (any commands, keys, delete_many, clock ticks), any
-                        number of servers, any non-decreasing clock and any outcomes that are success or an
+     c13_windows        for EVERY history of key-addressed calls (single-key commands, set_many, get_many/gets_many,
+                        delete_many, clock ticks; any keys), any number of servers, any non-decreasing clock and any outcomes that are success or an
                         OSError-class failure, the contact log of every server passes that oracle: at most two
                         failing contacts in any retry_timeout window, at most retry_attempts+2 in any
                         dead_timeout window (Proofs/C13Windows.v: an invariant coupling the failure record and the
                         eviction record of a server with the tail of its contact log; Proofs/C13Oracle.v: the link
                         to the executable oracle)
      the others         the per-call decision rules and bookkeeping facts
-   PARTIAL: set_many/get_many (several servers per call) are outside c13_windows, and recovery of the original
+   PARTIAL: recovery of the original
    placement and "only the failing server's own error escapes" are per-call theorems (c13_eviction_clean) plus
    the search on the real class (oracle windows_ok on the real contact log, blip episodes, random long histories). *)
 From Coq Require Import ZArith List Bool Lia.
@@ -78,12 +78,12 @@ Proof. repeat split; reflexivity. Qed.
 Theorem c13_windows : forall (route : list server -> dyn -> exc (option server)) (c : hcfg),
   (forall nodes k sv, route nodes k = Ok (Some sv) -> sv_mem nodes sv = true) ->
   0 <= hc_retry_attempts c -> hc_retry_timeout c < hc_dead_timeout c ->
-  forall sv servers t0 times outs ops, mono t0 times -> Forall okout outs -> Forall single_key ops ->
+  forall sv servers t0 times outs ops, mono t0 times -> Forall okout outs ->
   windows_ok (hc_retry_attempts c) (hc_retry_timeout c) (hc_dead_timeout c)
              (contacts_chrono sv (h_log (snd (run_hops route c ops (init_hstate servers t0 times outs))))) = true.
 Proof.
-  intros route c Hr Ha Ht sv servers t0 times outs ops Hm Ho Hk. apply log_ok_windows.
-  apply (windows_hold route c Hr Ha Ht sv servers t0 times outs ops Hm Ho Hk).
+  intros route c Hr Ha Ht sv servers t0 times outs ops Hm Ho. apply log_ok_windows.
+  apply (windows_hold route c Hr Ha Ht sv servers t0 times outs ops Hm Ho).
 Qed.
 Print Assumptions c13_windows.
 
@@ -95,14 +95,14 @@ Example c13_windows_ex :
   let fails := [Raise ConnectionRefusedError; Raise ConnectionRefusedError; Raise ConnectionRefusedError; Raise ConnectionRefusedError] in
   let times := [10; 12; 17; 18; 30; 31; 100; 101; 102; 200; 200; 200] in
   let ops := [HCmd 0 (DBytes [107]) DNone []; HCmd 0 (DBytes [107]) DNone []; HCmd 0 (DBytes [107]) DNone []; HCmd 0 (DBytes [107]) DNone [];
-              HCmd 0 (DBytes [107]) DNone []; HDeleteMany [DBytes [107]] []; HTick; HCmd 0 (DBytes [107]) DNone []] in
+              HSetMany [DTuple [DBytes [107]; DBytes [118]]] []; HDeleteMany [DBytes [107]] []; HTick; HGetMany false [DBytes [107]; DBytes [108]]] in
   (forall nodes k sv, ex_route nodes k = Ok (Some sv) -> sv_mem nodes sv = true) /\
-  mono 0 times /\ Forall okout fails /\ Forall single_key ops /\
+  mono 0 times /\ Forall okout fails /\
   contacts_chrono [97] (h_log (snd (run_hops ex_route ex_hcfg ops (init_hstate [[97]; [98]] 0 times fails))))
   = [(0, false); (17, false); (30, false); (101, false); (200, true)].
 Proof.
   cbn zeta. split.
   { intros nodes k sv H. unfold ex_route in H. destruct (sv_mem nodes [97]) eqn:E; [inversion H; subst; exact E|].
     destruct nodes as [|x t]; [discriminate|]. inversion H; subst. unfold sv_mem. cbn [existsb]. rewrite C12Proof.list_eqb_refl. reflexivity. }
-  split; [cbn; lia|]. split; [repeat constructor|]. split; [repeat constructor|]. vm_compute. reflexivity.
+  split; [cbn; lia|]. split; [repeat constructor|]. vm_compute. reflexivity.
 Qed.
